@@ -161,7 +161,8 @@ func (c *Collection) handleReplaceByName() (err error) {
 	// step 3, do replacements
 	var infiniteLoopCounter int
 	for n := head.next; n != nil && n != tail; n = n.next {
-		if infiniteLoopCounter > 10000 {
+		infiniteLoopCounter++
+		if infiniteLoopCounter > len(c.contents)*len(c.contents)+10000 {
 			return fmt.Errorf("internal error #92, infinite loop doing replacements")
 		}
 		// predicate must be true for target
@@ -182,6 +183,18 @@ func (c *Collection) handleReplaceByName() (err error) {
 			target.prev = end
 			end.next = target
 		}
+		// inBlock reports if x is one of the nodes of the (snipped) block start..end
+		inBlock := func(x *node, start *node, end *node) bool {
+			for b := start; b != nil; b = b.next {
+				if b == x {
+					return true
+				}
+				if b == end {
+					break
+				}
+			}
+			return false
+		}
 		if n.processed {
 			// processed could already be true if a node moved
 			// forward in the list
@@ -196,6 +209,9 @@ func (c *Collection) handleReplaceByName() (err error) {
 			}
 			delete(names, name)
 			firstSnip, lastSnip := snip(firstLast.first, func(n *node) bool { return n.fm.origin == name })
+			if inBlock(n, firstSnip, lastSnip) {
+				return fmt.Errorf("cannot replace '%s', %s refers to itself", name, n.fm)
+			}
 			firstMove, lastMove := snip(n, func(n *node) bool { return n.fm.replaceByName == name })
 			if lastSnip.next == firstMove {
 				// adjacent blocks, snip before move, hack a reconnect
@@ -225,6 +241,9 @@ func (c *Collection) handleReplaceByName() (err error) {
 				return err
 			}
 			firstMove, lastMove := snip(n, func(n *node) bool { return n.fm.insertBeforeName == name })
+			if inBlock(firstLast.first, firstMove, lastMove) {
+				return fmt.Errorf("cannot insert before '%s', %s refers to itself", name, n.fm)
+			}
 			afterLastMove := lastMove.next
 			insertBefore(firstLast.first, firstMove, lastMove)
 			n = afterLastMove.prev
@@ -235,6 +254,9 @@ func (c *Collection) handleReplaceByName() (err error) {
 				return err
 			}
 			firstMove, lastMove := snip(n, func(n *node) bool { return n.fm.insertAfterName == name })
+			if inBlock(firstLast.last, firstMove, lastMove) {
+				return fmt.Errorf("cannot insert after '%s', %s refers to itself", name, n.fm)
+			}
 			afterLastMove := lastMove.next
 			insertBefore(firstLast.last.next, firstMove, lastMove)
 			n = afterLastMove.prev
